@@ -60,9 +60,17 @@ def expected(a, e, na, ne, s, es, n):
     return ("ok", out)
 
 
-def run_case(ctx, W, np, a, e, na, ne, s, es, n, dtype, reqs):
-    wa = W.from_lines(np.array(a, dtype=dtype).reshape(len(a), na), signal_count=na)
-    we = W.from_lines(np.array(e, dtype=dtype).reshape(len(e), ne), signal_count=ne)
+def run_case(ctx, W, np, a, e, na, ne, s, es, n, dtype, reqs, pad=None):
+    def build(rows, ncol, k):
+        arr = np.array(rows, dtype=dtype).reshape(len(rows), ncol)
+        if not k:
+            return W.from_lines(arr, signal_count=ncol)
+        # the samples sit inside a larger buffer: non-zero start index, slack behind the window (filled with other states)
+        filler = (np.arange((k[0] + k[1]) * ncol).reshape(k[0] + k[1], ncol) % (2 if dtype is np.bool_ else 8)).astype(dtype)
+        buf = np.concatenate([filler[:k[0]], arr, filler[k[0]:]])
+        return W(data=buf, start_index=k[0], sample_count=len(rows))
+    wa = build(a, na, pad and pad[0])
+    we = build(e, ne, pad and pad[1])
     kw = {}
     if s is not None: kw["start_sample"] = s
     if es is not None: kw["expected_start_sample"] = es
@@ -143,7 +151,8 @@ def run(ctx):
         s = rng.choice([None, 0, 1, 2, la, la + 1, -1])
         es = rng.choice([None, 0, 1, 2, le, le + 1, -1])
         n = rng.choice([None, 0, 1, 2, 3, la, le, max(0, la - (s or 0)), max(0, le - (es or 0)), -1])
-        run_case(ctx, W, np, a, e, na, ne, s, es, n, dtype, reqs)
+        pad = None if rng.random() < 0.5 else ((rng.randint(0, 3), rng.randint(0, 2)), (rng.randint(0, 3), rng.randint(0, 2)))
+        run_case(ctx, W, np, a, e, na, ne, s, es, n, dtype, reqs, pad=pad)
     # ---- values that are not digital states, in particular the SAME invalid value on both sides ----------------
     for _ in range(150 if ctx.quick else 5000):
         na = rng.randint(1, 3)
